@@ -243,7 +243,11 @@ def run_impl(case: Dict[str, Any], M, keep: bool = False, clear_caches: bool = T
         U.parse_requirement.cache_clear()
         U.NAME_CACHE.clear()
     Repo = make_repo_class(R, C, E, U)
-    repo = Repo(case["universe"], case["allow_pre"])
+    if case.get("stack"):
+        import req_compile.repos.multi as MU
+        repo = MU.MultiRepository(*[Repo(l["universe"], l["allow_pre"]) for l in case["stack"]])
+    else:
+        repo = Repo(case["universe"], case["allow_pre"])
     mk = lambda name, reqs: C.DistInfo(name, None, [U.parse_requirement(r) for r in reqs], meta=True)
     inputs = [mk(n, r) for (n, r) in case["inputs"]]
     cons = None if case["constraints"] is None else [mk(n, r) for (n, r) in case["constraints"]]
@@ -303,7 +307,7 @@ def run_impl(case: Dict[str, Any], M, keep: bool = False, clear_caches: bool = T
             raise
         out = {"kind": "FATAL", "class": type(ex).__name__, "msg": str(ex)[:200]}
     D.DistributionCollection.remove_dists = orig_remove
-    out["log"] = list(repo.log)
+    out["log"] = list(getattr(repo, "log", []))
     out["walkbacks"] = buf.getvalue().count("Could not use")
     out["invalidations"] = inval[0]
     return out
